@@ -584,4 +584,8 @@ theorem encryptZeroSymPrng_fresh : type_of% @HC.encryptZeroSymPrng_fresh := @HC.
     together a `DrvCtx` -/
 theorem drvCtx_of_prng : type_of% @HC.drvCtx_of_prng := @HC.drvCtx_of_prng
 
+/-- the SHARP BFV margin on the inputs, 2·t·(B+1) ≤ Q·(1 − 2^-53) (written 2^54·t·(B+1) ≤ (2^53 − 1)·Q), implies `FreshEncOK l B` -/
+theorem mkLevel_freshEncOK_sharp : type_of% @HC.mkLevel_freshEncOK_sharp := @HC.mkLevel_freshEncOK_sharp
+theorem drv_bfv_encrypt_decrypt_inputs_sharp : type_of% @HC.drv_bfv_encrypt_decrypt_inputs_sharp := @HC.drv_bfv_encrypt_decrypt_inputs_sharp
+
 end HC.C01
